@@ -257,6 +257,28 @@ def decoder_short(ctx, dec, msg, cell):
                 ctx.count('dec_short_refused')
                 ctx.add('short_exceptions', type(e).__name__)
             ctx.evaluated(('dec-short', sec, cut) + tuple(cell), True)
+    # consistently framed short data section: declared length cuts the last octets of the data, the stop
+    # signature follows the declared end directly, the total agrees, and enough bytes follow for the
+    # over-read to succeed - the overrun check is then the only thing that can notice
+    for cut in (1, 2, 3, 4):
+        if cut >= len(data) or (msg.edition <= 3 and (4 + len(data) - cut) % 2):
+            continue
+        short = R.build_frame(msg.edition, msg.meta, msg.ids, msg.nsub, msg.compressed, data[:len(data) - cut], msg.sec2, None)
+        if msg.edition <= 3 and len(data[:len(data) - cut]) % 2 == 0:
+            pass
+        stream = short + b'\0' * 24
+        spec = dict(side='decoder-short', section=4, declared=4 + len(data) - cut, content=4 + len(data), edition=msg.edition,
+                    cell=cell, consistent_framing=True, hex=stream.hex())
+        try:
+            m = dec.process(stream)
+            ctx.violate('dec/short-section-accepted/section4/consistent-framing',
+                        'data section declared %d octets short (stop signature and total length consistent with the short length): '
+                        'decoded without error' % cut, spec)
+        except Exception as e:
+            ctx.count('dec_short_refused')
+            ctx.count('dec_short_consistent_framing')
+            ctx.add('short_exceptions', type(e).__name__)
+        ctx.evaluated(('dec-short-consistent', cut) + tuple(cell), True)
 
 
 def run(ctx):
